@@ -1,6 +1,7 @@
 package main
 
 import (
+	"os"
 	"fmt"
 	"go/token"
 	"go/types"
@@ -581,11 +582,20 @@ func (fc *FnCtx) applyHint(s *State, env *Env, h *Hint, where string) {
 	defer func() {
 		if r := recover(); r != nil {
 			if u, ok := r.(unsupported); ok && strings.HasPrefix(string(u), "unknown identifier") {
+				if os.Getenv("DVC_HINTDEBUG") != "" {
+					fmt.Fprintf(os.Stderr, "hint skipped at %s: %s: %s\n", where, string(u), h.Text)
+				}
 				return // the hint mentions a local that does not exist on this path: skip it (hints are optional)
 			}
 			panic(r)
 		}
 	}()
+	// the function's own ghost results, once bound, can be named in later hints
+	for g, t := range s.ghosts {
+		if _, ok := env.names[g]; !ok {
+			env = env.with(g, mathInt(t))
+		}
+	}
 	e := h.E
 	// `cond ==> lemma(args)` guards the instance
 	var guard *Term
